@@ -143,7 +143,10 @@ Init ==
     /\ cfg \in
          CASE Family = "one" ->
                 {Cfg({[loc |-> l, kind |-> k, lines |-> c]}, NoExclude, w) :
-                    l \in Locs, k \in Kinds, c \in Contents, w \in {{}, {<<"test">>}, {<<"test", "sub">>}, {<<"a">>}}}
+                    l \in Locs, k \in Kinds, c \in Contents,
+                    \* explicit watches, among them sibling directories whose names are prefix-related
+                    w \in {{}, {<<"test">>}, {<<"test", "sub">>}, {<<"a">>}, {<<"test">>, <<"tests">>},
+                           {<<"tests">>, <<"test", "sub">>}}}
                 \cup {Cfg({[loc |-> l, kind |-> ".gitignore", lines |-> c]}, e, {}) :
                     l \in Locs, c \in Contents, e \in {Excl(<<>>), Excl(<<P("tests/")>>), Excl(<<P("sub/")>>)}}
            [] Family = "origin" ->
@@ -164,7 +167,7 @@ Init ==
                       [loc |-> RandomElement(Locs), kind |-> RandomElement(Kinds), lines |-> RandomElement(Contents)],
                       [loc |-> RandomElement(Locs), kind |-> RandomElement(Kinds), lines |-> RandomElement(Contents)]},
                      RandomElement({NoExclude, Excl(<<P("tests/")>>), Excl(<<P("sub/")>>)}),
-                     RandomElement({{}, {<<"test">>}, {<<"tests", "sub">>}, {<<"test">>, <<"a">>}})) : i \in 1..Sample}
+                     RandomElement({{}, {<<"test">>}, {<<"tests", "sub">>}, {<<"test">>, <<"a">>}, {<<"test">>, <<"tests">>}})) : i \in 1..Sample}
     /\ \A f, g \in cfg.files : (f.loc = g.loc /\ f.kind = g.kind) => f = g      \* one file per name
     /\ \A i, j \in DOMAIN cfg.exclude : i < j =>                                  \* in the order of OriginKinds
           \E a, b \in DOMAIN OriginKinds : a < b /\ OriginKinds[a] = cfg.exclude[i].kind /\ OriginKinds[b] = cfg.exclude[j].kind
